@@ -217,6 +217,11 @@ def run(ctx, prop):
         from .c04 import exact_size_pass
         rest_, _p = split_padded(gen.coverage_case("C03-exact"))
         exact_size_pass(ctx, rest_, oracle_fail, hist, excused_classes=("smallObjStruct", "bundlePadding"))
+    # ---- process history (vlib/history.py): a compilation must not depend on what the same
+    # process compiled before (same names with other shapes, same paths with other content, a
+    # compilation that failed half-way in between)
+    from .. import history as H_
+    H_.history_pass(ctx, oracle_fail, hist)
     known_lines = []
     for kid, k in listed.items():
         if kid in known_seen:
